@@ -23,6 +23,9 @@ pub struct Case {
     pub payload: u16,
     /// how the scrape request is written: 0 one write, 1 byte by byte, 2 with extra headers
     pub request_form: u8,
+    /// HTTP/3 connections (quiche clients) held open during the scrape
+    #[serde(default)]
+    pub h3_sessions: u8,
 }
 
 async fn http_get(addr: std::net::SocketAddr, path: &str, form: u8) -> Result<(u16, Vec<u8>), String> {
@@ -58,11 +61,11 @@ impl Suite for EndpointSuite {
         "metrics-endpoint"
     }
     fn rule(&self) -> String {
-        "the real Core::listen with a metrics listener on a loopback port; 0-2 HTTP/1.1 tunnels, 0-2 HTTP/2 sessions with 0-3 tunnels (in memory, echo destinations, a generated number of bytes through each); then GET /health-check and GET /metrics over TCP (request in one write, byte by byte, or with a scraper's headers); oracle: /health-check answers 200; /metrics answers 200 with a body that parses as Prometheus text and carries client_sessions per protocol = the live sessions, traffic bytes = the bytes echoed (within 4 s; the destinations are in-memory peers, so outbound_tcp_sockets stays 0), and equals what the metrics door reports; an unknown path is not answered 200; non-trivial = at least one live tunnel".into()
+        "the real Core::listen with a metrics listener on a loopback port; 0-2 HTTP/1.1 tunnels, 0-2 HTTP/2 sessions with 0-3 tunnels (in memory, echo destinations, a generated number of bytes through each), 0-2 HTTP/3 connections of quiche clients over the real QUIC listener; then GET /health-check and GET /metrics over TCP (request in one write, byte by byte, or with a scraper's headers); oracle: /health-check answers 200; /metrics answers 200 with a body that parses as Prometheus text and carries client_sessions per protocol = the live sessions, traffic bytes = the bytes echoed (within 4 s; the destinations are in-memory peers, so outbound_tcp_sockets stays 0), and equals what the metrics door reports; an unknown path is not answered 200; after all clients have left client_sessions sums to 0 within 4 s; non-trivial = at least one live tunnel".into()
     }
     fn strategy(&self, _: Tier) -> BoxedStrategy<Case> {
-        (0u8..3, 0u8..3, 0u8..4, 1u16..5000, 0u8..3)
-            .prop_map(|(h1_tunnels, h2_sessions, h2_tunnels, payload, request_form)| Case { h1_tunnels, h2_sessions, h2_tunnels, payload, request_form })
+        (0u8..3, 0u8..3, 0u8..4, 1u16..5000, 0u8..3, 0u8..3)
+            .prop_map(|(h1_tunnels, h2_sessions, h2_tunnels, payload, request_form, h3_sessions)| Case { h1_tunnels, h2_sessions, h2_tunnels, payload, request_form, h3_sessions })
             .boxed()
     }
     fn cases(&self, tier: Tier) -> u64 {
@@ -89,7 +92,7 @@ impl Suite for EndpointSuite {
                 Err(e) => return viol("harness:port", e.to_string()),
             };
             let maddr: std::net::SocketAddr = format!("127.0.0.1:{}", mport).parse().unwrap();
-            let spec = CoreSpec { metrics: Some(maddr), ..CoreSpec::default() };
+            let spec = CoreSpec { metrics: Some(maddr), quic: true, ..CoreSpec::default() };
             let net = match NetWorld::start(&spec).await {
                 Ok(n) => n,
                 Err(e) => return viol("harness:networld", e),
@@ -155,7 +158,21 @@ impl Suite for EndpointSuite {
                 keep_h2.push((send, conn, streams));
             }
             tunnels += h2_tunnels;
-            let what = format!("{} HTTP/1.1 tunnels, {} HTTP/2 sessions with {} tunnels each, {} bytes echoed per tunnel", c.h1_tunnels, c.h2_sessions, c.h2_tunnels, c.payload);
+            // HTTP/3 connections held open by quiche clients
+            let (ready_tx, mut ready_rx) = tokio::sync::mpsc::channel(8);
+            let (go_tx, go_rx) = tokio::sync::watch::channel(None);
+            let mut h3_tasks = vec![];
+            for _ in 0..c.h3_sessions {
+                let (addr, r, g) = (net.addr, ready_tx.clone(), go_rx.clone());
+                h3_tasks.push(tokio::spawn(async move { crate::engine::quic::h3_hold(addr, "main.x", r, g, Duration::from_millis(1)).await }));
+            }
+            drop(ready_tx);
+            for _ in 0..c.h3_sessions {
+                if tokio::time::timeout(Duration::from_secs(6), ready_rx.recv()).await.is_err() {
+                    return viol("harness:quic-client", "an HTTP/3 client did not get ready");
+                }
+            }
+            let what = format!("{} HTTP/1.1 tunnels, {} HTTP/2 sessions with {} tunnels each, {} bytes echoed per tunnel, {} HTTP/3 connections", c.h1_tunnels, c.h2_sessions, c.h2_tunnels, c.payload, c.h3_sessions);
             // ---- the listener
             let (st, _) = match http_get(maddr, "/health-check", c.request_form).await {
                 Ok(x) => x,
@@ -179,11 +196,12 @@ impl Suite for EndpointSuite {
                 };
                 let sessions_h1 = g("client_sessions", "\"http1\"");
                 let sessions_h2 = g("client_sessions", "\"http2\"");
+                let sessions_h3 = g("client_sessions", "\"http3\"");
                 let tcp = g("outbound_tcp_sockets", "");
                 let traffic = g("inbound_traffic_bytes", "") + g("outbound_traffic_bytes", "");
                 let want_traffic = 2.0 * tunnels as f64 * c.payload as f64;
                 // (the destinations are in-memory peers of the scripted forwarder: no outbound socket exists)
-                let ok = sessions_h1 == c.h1_tunnels as f64 && sessions_h2 == c.h2_sessions as f64 && tcp == 0.0 && traffic == want_traffic;
+                let ok = sessions_h1 == c.h1_tunnels as f64 && sessions_h2 == c.h2_sessions as f64 && sessions_h3 == c.h3_sessions as f64 && tcp == 0.0 && traffic == want_traffic;
                 if ok {
                     // and it is the same text the door reports (modulo values still moving)
                     let door = parse_prometheus(&net.world.core.verif_metrics_text());
@@ -201,8 +219,8 @@ impl Suite for EndpointSuite {
                     return viol(
                         "metrics-endpoint:values",
                         format!(
-                            "{}: GET /metrics reports client_sessions http1={} http2={}, outbound_tcp_sockets={}, traffic bytes={} (want {} / {} / 0 / {})",
-                            what, sessions_h1, sessions_h2, tcp, traffic, c.h1_tunnels, c.h2_sessions, want_traffic
+                            "{}: GET /metrics reports client_sessions http1={} http2={} http3={}, outbound_tcp_sockets={}, traffic bytes={} (want {} / {} / {} / 0 / {})",
+                            what, sessions_h1, sessions_h2, sessions_h3, tcp, traffic, c.h1_tunnels, c.h2_sessions, c.h3_sessions, want_traffic
                         ),
                     );
                 }
@@ -210,6 +228,28 @@ impl Suite for EndpointSuite {
             }
             drop(keep_h1);
             drop(keep_h2);
+            // everybody leaves: the session gauges return to zero
+            let _ = go_tx.send(Some(tokio::time::Instant::now()));
+            for t in h3_tasks {
+                let _ = t.await;
+            }
+            let zero_wait = std::env::var("VERIF_ZERO_WAIT").ok().and_then(|x| x.parse().ok()).unwrap_or(4u64);
+            let left_at = std::time::Instant::now();
+            let deadline = left_at + Duration::from_secs(zero_wait);
+            loop {
+                let s = parse_prometheus(&net.world.core.verif_metrics_text());
+                let total: f64 = s.get("client_sessions").map(|m| m.values().sum()).unwrap_or(0.0);
+                if total == 0.0 {
+                    if std::env::var("VERIF_DEBUG").is_ok() {
+                        eprintln!("back to zero after {:?}", left_at.elapsed());
+                    }
+                    break;
+                }
+                if std::time::Instant::now() > deadline {
+                    return viol("metrics-endpoint:sessions-not-back-to-zero", format!("{}: all clients are gone, client_sessions still sums to {}: {:?}", what, total, s.get("client_sessions")));
+                }
+                tokio::time::sleep(Duration::from_millis(20)).await;
+            }
             Ok(())
         })
     }
